@@ -46,7 +46,7 @@ class C08(Check):
     ]
     required_labels = ["steps:0-copy", "steps>=1", "expect:value", "expect:error", "via:container", "via:schemaless",
                        "step:promote", "step:wrap-union", "step:drop-field", "step:reorder", "step:rename-type-alias", "step:enum-remove-default", "moved-definition", "foreign-layout", "reader-only-field:new-named-type-default",
-                       "step:add-field-default", "step:add-field-nodefault", "step:change-type", "step:enum-remove-nodefault", "step:fixed-size", "step:rename-type-noalias", "step:union-drop-branch", "step:rename-field-alias", "step:change-namespace", "step:enum-add", "step:permute-union", "step:unwrap-union", "step:union-insert-branch"]
+                       "step:add-field-default", "step:add-field-nodefault", "step:change-type", "step:enum-remove-nodefault", "step:fixed-size", "step:rename-type-noalias", "step:union-drop-branch", "step:rename-field-alias", "step:change-namespace", "step:enum-add", "step:permute-union", "step:unwrap-union", "step:union-insert-branch", "step:split-named"]
     quick = (5000, 1)
     thorough = (8000, 16)
 
@@ -86,6 +86,20 @@ class C08(Check):
         yield dict(base, writer={"type": "enum", "name": "E", "symbols": ["A", "B"]}, reader={"type": "enum", "name": "E", "symbols": ["A"], "default": "A"}, datum="B")
         yield dict(base, writer={"type": "enum", "name": "E", "symbols": ["A", "B"]}, reader={"type": "enum", "name": "E", "symbols": ["A"]}, datum="B")
         yield dict(base, writer={"type": "array", "items": "int"}, reader={"type": "array", "items": "string"}, datum=[])
+        # one writer enum used twice, resolved against two different reader enums (the second one by alias)
+        suit = {"type": "enum", "name": "Suit", "symbols": ["SPADES", "HEARTS", "DIAMONDS", "CLUBS"]}
+        major = {"type": "enum", "name": "MajorSuit", "aliases": ["Suit"], "symbols": ["SPADES", "HEARTS"], "default": "SPADES"}
+        major_nd = {"type": "enum", "name": "MajorSuit", "aliases": ["Suit"], "symbols": ["SPADES", "HEARTS"]}
+        w2 = {"type": "record", "name": "Hand", "fields": [{"name": "a", "type": suit}, {"name": "b", "type": "Suit"}, {"name": "c", "type": {"type": "array", "items": "Suit"}}]}
+        for wide_first in (True, False):
+            for narrow in (major, major_nd):
+                fa = {"name": "a", "type": suit if wide_first else narrow}
+                fb = {"name": "b", "type": narrow if wide_first else suit}
+                fc = {"name": "c", "type": {"type": "array", "items": "MajorSuit" if wide_first else "Suit"}}
+                r2 = {"type": "record", "name": "Hand", "fields": [fa, fb, fc]}
+                for dv in ({"a": "CLUBS", "b": "CLUBS", "c": ["CLUBS", "HEARTS"]}, {"a": "HEARTS", "b": "HEARTS", "c": []}, {"a": "SPADES", "b": "DIAMONDS", "c": ["SPADES"]}):
+                    yield dict(base, writer=w2, reader=r2, datum=dv, steps=["fixed", "split-named"])
+                    yield dict(base, writer=w2, reader=r2, datum=dv, steps=["fixed", "split-named"], via="container", parsed=True)
         # regression cases of the repaired resolution defects (one per fix commit)
         recA = {"type": "record", "name": "ns.A", "fields": [{"name": "x", "type": "int"}]}
         enumA = {"type": "enum", "name": "A", "symbols": ["P", "Q"]}
